@@ -68,6 +68,11 @@ func c04Generate(c *mon.Ctx) {
 
 	hr := c.SharedRng("moves")
 
+	for rep := 0; rep < c.N(60, 2000); rep++ {
+		mv := mon.PlanElemMove("decode-rejected", hr)
+		c.Structured(func() any { return &c04Case{Move: &mv} })
+	}
+
 	for rep := 0; rep < 20; rep++ {
 		for _, via := range mon.ElemVias {
 			mv := mon.PlanElemMove(via, hr)
@@ -174,7 +179,7 @@ func c04Run(c *mon.Ctx, csAny any) {
 			e.Identity()
 			p = oracle.Inf()
 		case "Multiply(nil)":
-			e.Multiply(nil)
+			e.Multiply(mon.NilScal)
 			p = oracle.Inf()
 		case "2P":
 			e.Double()
